@@ -100,15 +100,20 @@ fn announce(tok: *const MemToken) {
     }
 }
 
-pub struct MemProg<const IDLE: bool>(PhantomData<()>);
+pub struct MemProg<const IDLE: bool, const THIRD: bool>(PhantomData<()>);
 
-impl<const IDLE: bool> Prog for MemProg<IDLE> {
-    const NACT: usize = 2;
-    const LEN: [u8; MAXACT] = [2, 2, 0, 0];
-    const BASE: [usize; MAXACT] = [0, 4, 0, 0];
+impl<const IDLE: bool, const THIRD: bool> Prog for MemProg<IDLE, THIRD> {
+    const NACT: usize = if THIRD { 3 } else { 2 };
+    const LEN: [u8; MAXACT] = [if THIRD { 1 } else { 2 }, 2, if THIRD { 1 } else { 0 }, 0];
+    const BASE: [usize; MAXACT] = [0, 4, 8, 0];
     fn step(a: usize, k: usize) {
         let w = mw();
         match (a, k) {
+            // third actor: some other handle retires one more object (e.g. drops a stream elsewhere)
+            (2, _) => {
+                let p: *mut u64 = Box::into_raw(Box::new(0u64));
+                w.mgr.free(p, 1);
+            }
             (0, _) => {
                 announce(w.tw);
                 let d = w.cursor.get_max_diff(0);
@@ -131,7 +136,11 @@ impl<const IDLE: bool> Prog for MemProg<IDLE> {
 }
 
 pub fn reclaim_protocol<const IDLE: bool, const OUTER: usize>(preload: usize, budget: u8) {
-    sched::configure(1, budget, sched::MEM_KINDS | (1 << sched::K_ALLOC), 2);
+    reclaim_protocol_d::<IDLE, false, OUTER>(preload, budget, 1)
+}
+
+pub fn reclaim_protocol_d<const IDLE: bool, const THIRD: bool, const OUTER: usize>(preload: usize, budget: u8, depth: u8) {
+    sched::configure(depth, budget, sched::MEM_KINDS | (1 << sched::K_ALLOC), 2);
     let mgr = MemoryManager::new();
     let (cursor, r0) = ReadCursor::new(2);
     let tw = mgr.get_token();
@@ -150,7 +159,7 @@ pub fn reclaim_protocol<const IDLE: bool, const OUTER: usize>(preload: usize, bu
         w.mgr.free(p, 1);
         i += 1;
     }
-    run_concurrent::<MemProg<IDLE>, OUTER>();
+    run_concurrent::<MemProg<IDLE, THIRD>, OUTER>();
     kani::cover!(sched::st().injected > 0, "an operation ran at a preemption point");
     // one more quiet round: both tokens announce, a retirement triggers try_freeing
     announce(w.tw);
@@ -169,10 +178,10 @@ pub fn reclaim_protocol<const IDLE: bool, const OUTER: usize>(preload: usize, bu
     std::mem::forget(w);
 }
 
-crate::mq_harness_real!(c16_protocol_o0, hk_c16_protocol_o0, Runner<MemProg<false>, 0>, reclaim_protocol::<false, 0>(20, 2));
-crate::mq_harness_real!(c16_protocol_o1, hk_c16_protocol_o1, Runner<MemProg<false>, 1>, reclaim_protocol::<false, 1>(20, 2));
-crate::mq_harness_real!(c16_protocol_idle_o0, hk_c16_protocol_idle_o0, Runner<MemProg<true>, 0>, reclaim_protocol::<true, 0>(20, 2));
-crate::mq_harness_real!(c16_protocol_seq, hk_c16_protocol_seq, Runner<MemProg<false>, 0>, reclaim_protocol::<false, 0>(20, 0));
+crate::mq_harness_real!(c16_protocol_o0, hk_c16_protocol_o0, Runner<MemProg<false, false>, 0>, reclaim_protocol::<false, 0>(20, 2));
+crate::mq_harness_real!(c16_protocol_o1, hk_c16_protocol_o1, Runner<MemProg<false, false>, 1>, reclaim_protocol::<false, 1>(20, 2));
+crate::mq_harness_real!(c16_protocol_idle_o0, hk_c16_protocol_idle_o0, Runner<MemProg<true, false>, 0>, reclaim_protocol::<true, 0>(20, 2));
+crate::mq_harness_real!(c16_protocol_seq, hk_c16_protocol_seq, Runner<MemProg<false, false>, 0>, reclaim_protocol::<false, 0>(20, 0));
 
 // ==========================================================================================
 // C17 churn (unit level, real MemoryManager): conservation of retired objects.  Every object
@@ -300,3 +309,7 @@ pub const PTR_AND_LOCK_KINDS: u16 = (1 << 3) | (1 << 4) | (1 << 9) | (1 << 10) |
 
 crate::mq_harness_real!(c16_wq_drop_ptrwin, hk_c16_wq_drop_ptrwin, Runner<WqDrop<BcB>, 0>, wholequeue_drop::<BcB, 0>(19, 4, PTR_AND_LOCK_KINDS));
 crate::mq_harness_real!(c16_wq_drop_seq, hk_c16_wq_drop_seq, Runner<WqDrop<BcB>, 0>, wholequeue_drop::<BcB, 0>(19, 0, 0));
+
+// nesting depth 2: the writer's scan is preempted by the consumer's add_stream / remove_reader, and
+// inside those (e.g. between two steps of MemoryManager::free) a third handle retires one more object
+crate::mq_harness_real!(c16_protocol_d2_o0, hk_c16_protocol_d2_o0, Runner<MemProg<false, true>, 0>, reclaim_protocol_d::<false, true, 0>(19, 3, 2));
